@@ -402,6 +402,15 @@ def judge(ctx, whole, strict, log, at_index=None):
     h[b] = h.get(b, 0) + 1
 
 
+_NOREF = []
+
+
+def NOREF():
+    if not _NOREF:
+        _NOREF.append(treegen.Gen(exclude={"references"}))
+    return _NOREF[0]
+
+
 def run(ctx, params):
     gen = treegen.Gen()
     rng = ctx.rng
@@ -425,7 +434,7 @@ def run(ctx, params):
         emlkit.discard(t)
     # every known element name planted once as a misplaced child (so that a broken mapping entry of any element is reached)
     for j, name in enumerate(gen.known):
-        t = gen.minimal_tree("dataset")
+        t = (gen if j % 3 == 0 else NOREF()).minimal_tree("dataset")      # (title, creator, contact - or, one time in three, references alone)
         host = rng.choice(treegen.all_nodes(t))
         host.add_child(Node(name, content=rng.choice([None, "x"])), rng.randint(0, len(host.children)))
         ctx.case(judge, ctx, t, j % 2 == 0, ["every-known-name:" + name])
@@ -450,7 +459,7 @@ def run(ctx, params):
             emlkit.discard(t)
     # one parent with a hundred and more offenders (some with subtrees): every one of them goes, with everything below it
     for count in (9, 10, 11, 99, 100, 101, 150, 257):
-        t = gen.minimal_tree("dataset")
+        t = NOREF().minimal_tree("dataset")
         host = t if count % 2 else (t.children[0] if t.children else t)
         for k in range(count):
             c = Node(rng.choice(["spatialRaster", "verifUnknown", "span"]), content=None)
